@@ -31,6 +31,8 @@ def ops_for(r: fr.RefAction, full: bool, step: int):
                     keeps = [False, True] if full else [bool((ri + bs + step) % 2)]
                     for keep in keeps:
                         out.append([red, dim, bs, keep])
+                    if full and bs in (0, 2):
+                        out.append([red, dim, bs, False, "backend_kwargs"])
             out.append(["reduce_first", dim])
             for axis in sorted({0, nd}):
                 for keep in ([False, True] if full else [bool(axis)]):
@@ -129,7 +131,7 @@ def classify_exception(e, op):
     if op[0] in fr.NPRED or op[0] in ("concatenate", "stack"):
         bs = op[2] if op[0] in fr.NPRED else (op[3] if op[0] == "concatenate" else 0)
         keep = op[3] if op[0] in fr.NPRED else (op[4] if op[0] == "concatenate" else op[3])
-        detail = f" (batching {'active' if bs > 1 else 'off'}, keep_dim={keep})"
+        detail = f" (batching {'active' if bs > 1 else 'off'}, keep_dim={keep}{', backend_kwargs given' if op[0] in fr.NPRED and len(op) > 4 else ''})"
     return f"{op[0]}{detail}: {type(e).__name__} in {where}"
 
 
@@ -166,7 +168,11 @@ def run_program(prog):
 def run_chunk(progs):
     out = []
     for p in progs:
-        for sig, msg, rp in common.with_timeout(run_program, p, 60):
+        try:
+            res = common.with_timeout(run_program, p, 600)
+        except common.CaseTimeout:
+            res = [({"monitor": "program_hangs", "cause": f"{p['ops'][-1][0]}: building or evaluating the program did not finish within 600 s"}, f"{p}", p)]
+        for sig, msg, rp in res:
             out.append((sig, msg, rp))
     return out
 
